@@ -259,7 +259,7 @@ class Inst:
         self.wire_log.append((self.clock.t, d.urn, TYPE_NAMES.get(msg_type, msg_type), msg_flags, err))
         return err
 
-    def receive(self, data: bytes, addr='127.0.0.1') -> str:
+    def receive(self, data: bytes, addr='127.0.0.1', settle=True) -> str:
         old = tcpmod.time
         tcpmod.time = self.clock
         try:
@@ -270,7 +270,8 @@ class Inst:
         finally:
             tcpmod.time = old
         self.tcp._update()
-        self.settle()
+        if settle:
+            self.settle()
         return out
 
     def queue_len(self):
@@ -330,7 +331,7 @@ class Cluster:
     def pass_(self, name):
         self.insts[name].outgoing_pass()
 
-    def deliver(self, src, dst, k=0, keep=False) -> Optional[str]:
+    def deliver(self, src, dst, k=0, keep=False, settle=True) -> Optional[str]:
         q = self.net.links.get((src, dst), [])
         if k >= len(q):
             return None
@@ -339,7 +340,7 @@ class Cluster:
             self.net.meta[(src, dst)].pop(k)
         if not self.insts[dst].alive:
             return 'lost'
-        return self.insts[dst].receive(data)
+        return self.insts[dst].receive(data, settle=settle)
 
     def crash(self, name):
         """the process is gone: what was on its way to it is lost, connecting to it fails from now on (the sender's
